@@ -39,21 +39,11 @@ Proof.
   intros w cpp H. destruct w as [wc ws wi wl wll cs]. split; [reflexivity|]. destruct cpp; reflexivity.
 Qed.
 
-(* ---- integer literals *)
-(* a non-decimal literal in [2^N, 2^(N+1)) (N = bits of int) is typed unsigned int *)
-(* (the `dec` argument of the model is MathLib::isDec of the spelling, which also holds for octal
-   literals made of decimal digits: they are typed like decimal literals) *)
-Theorem literal_type_octal_refuted :
-  exists p v, In p Gen_platforms /\
-    literal_ctype (widths_of p) false false 0 v = Some CUInt /\
-    ctype_of (literal_type p true false 0 v) = Some CLong.
-Proof. exists plat_unix64, 2147483648. split; [vm_compute; tauto|]. vm_compute. split; reflexivity. Qed.
-
-Theorem literal_type_nondecimal_refuted :
-  exists p v, In p Gen_platforms /\
-    literal_ctype (widths_of p) false false 0 v = Some CLong /\
-    ctype_of (literal_type p false false 0 v) = Some CUInt.
-Proof. exists plat_unix64, 4294967296. split; [vm_compute; tauto|]. vm_compute. split; reflexivity. Qed.
+(* ---- integer literals: the two former witnesses (before /repo 75f7975) now get the C type *)
+Example literal_hex_2_32_unix64 : ctype_of (literal_type plat_unix64 false false 0 4294967296) = Some CLong.
+Proof. vm_compute. reflexivity. Qed.
+Example literal_oct_2_31_unix64 : ctype_of (literal_type plat_unix64 false false 0 2147483648) = Some CUInt.
+Proof. vm_compute. reflexivity. Qed.
 
 (* ---- on the shipped platforms (none has strictly increasing widths) every disagreement with ISO C,
    for every operator class, operand pair and language, has one of the four named causes
